@@ -1986,7 +1986,16 @@ class KmipEngine(object):
             )
 
         managed_object_factory = factory.ObjectFactory()
-        managed_object = managed_object_factory.convert(secret)
+        try:
+            managed_object = managed_object_factory.convert(secret)
+        except (AttributeError, TypeError, ValueError) as e:
+            self._logger.warning(
+                "The object to register could not be converted: {0}".format(e)
+            )
+            raise exceptions.InvalidField(
+                "The object to register is missing a required field or "
+                "contains an unsupported or inconsistent value."
+            )
         managed_object.names = []
 
         self._set_attributes_on_managed_object(
